@@ -25,6 +25,7 @@ package database
 // reported only when the database transaction did not commit.
 //@ func (*TxController).Rollback
 //@ mode effects
+//@ assigns t.finalized
 //@ ensures[C03:rollback-releases-sql-tx] t.ownsFinalization ==> called(t.tx.Rollback)
 //@ effect[C03:rollback-runs-undo-hooks] every t.tx.Rollback() if !old(t.finalized) && len(t.onRollback) > 0 needs after each(t.onRollback)(_)
 //@ ensures[C03:rollback-finalizes] t.ownsFinalization ==> t.finalized
